@@ -773,6 +773,7 @@ structure Behaviour where
   stdinConsumed : Nat
   exit : Word
   calls : List String       -- procedures and functions entered, oldest first
+  returned : Bool           -- true: `main` returned; false: terminated by `0(v)` or `stop`
   deriving DecidableEq, Repr
 
 inductive Result where
@@ -780,9 +781,9 @@ inductive Result where
   | undefined (reason : String)
   deriving DecidableEq, Repr
 
-def mkBehaviour (inp : Input) (code : Word) (s : St) : Behaviour :=
+def mkBehaviour (inp : Input) (code : Word) (s : St) (returned : Bool) : Behaviour :=
   { events := s.io.log.reverse, stdinConsumed := inp.stdin.length - s.io.stdin.length,
-    exit := code, calls := s.calls.reverse }
+    exit := code, calls := s.calls.reverse, returned }
 
 /-- The reference semantics: behaviour of program `P` on input `inp`, or `undefined`. -/
 def run (P : Program) (inp : Input) (fuel : Nat) : Result :=
@@ -804,7 +805,7 @@ def run (P : Program) (inp : Input) (fuel : Nat) : Result :=
       | some m =>
         match callUser fuel ctx m [] st with
         | .undef w => .undefined w
-        | .exit code s => .defined (mkBehaviour inp code s)
-        | .ok _ s => .defined (mkBehaviour inp 0 s)
+        | .exit code s => .defined (mkBehaviour inp code s false)
+        | .ok _ s => .defined (mkBehaviour inp 0 s true)
 
 end Hex.X
